@@ -628,6 +628,14 @@ func NewRaft(conf *Config, fsm FSM, logs LogStore, stable StableStore, snaps Sna
 			return nil, err
 		}
 	}
+	// A commit index restored from the log store (RestoreCommittedLogs) that
+	// covers the latest configuration entry means that configuration is
+	// committed. The leader loop only promotes a configuration when the commit
+	// index moves past it, which never happens again for this one: without
+	// this a restarted server that leads could not take membership changes.
+	if ci := r.getCommitIndex(); ci > 0 && r.configurations.latestIndex <= ci {
+		r.setCommittedConfiguration(r.configurations.latest, r.configurations.latestIndex)
+	}
 	r.logger.Info("initial configuration",
 		"index", r.configurations.latestIndex,
 		"servers", hclog.Fmt("%+v", r.configurations.latest.Servers))
